@@ -5,7 +5,6 @@ package c06
 import (
 	"fmt"
 	"math"
-	"math/rand"
 	"sort"
 
 	"github.com/golang/geo/s2"
@@ -22,7 +21,7 @@ var origin = gen.V(s2.OriginPoint())
 func Run(m *mon.M) {
 	m.Rule = "shape collections of 1..8 shapes of every Shape type (Loop, Polygon with holes, Polyline, LaxLoop, LaxPolygon, LaxPolyline, PointVector), overlapping, 0..1500 edges quick (..10^4 thorough), placed at poles/antimeridian/cube corners, with degenerate edges; queries at shape vertices, on edges, at index-cell centres/corners and with query edges inside one cell, across faces and sharing endpoints. A query is non-trivial and distinct when its bits are new AND it is answered through an index holding more than one cell or more than one shape"
 	m.Assumptions = []string{"brute force = the monitor's own scan over every edge of every shape with the exact reference predicates of C02/C03", "containment of constructed ring polygons = parity of enclosing rings (C04's model)"}
-	m.Require("contract.shapes", 2000)
+	m.Require("contract.Shapes", 2000)
 	m.Require("index.cells_checked", 5000)
 	m.Require("index.edge_samples", 20000)
 	m.Require("cpq.queries", 20000)
@@ -34,155 +33,19 @@ func Run(m *mon.M) {
 	m.Stream("cellrel", m.N(3000, 100000), cellRelations)
 }
 
-// obj is one generated shape with its brute-force containment model.
-type obj struct {
-	shape    s2.Shape
-	kind     string
-	dim      int
-	rings    []*ref.LoopModel // for dim 2: contained iff an odd number of rings enclose the point
-	vertices []s2.Point
-}
-
-func (o *obj) containsInterior(p s2.Point) bool {
-	k := 0
-	for _, m := range o.rings {
-		if m.Contains(gen.V(p)) {
-			k++
-		}
-	}
-	return k%2 == 1
-}
-
-func (o *obj) isVertex(p s2.Point) bool {
-	for _, v := range o.vertices {
-		if v == p {
-			return true
-		}
-	}
-	return false
-}
-
-// model answer under a vertex model
-func (o *obj) contains(p s2.Point, model s2.VertexModel) bool {
-	if o.dim < 2 {
-		return model == s2.VertexModelClosed && o.isVertex(p)
-	}
-	if o.isVertex(p) {
-		switch model {
-		case s2.VertexModelOpen:
-			return false
-		case s2.VertexModelClosed:
-			return true
-		}
-	}
-	return o.containsInterior(p)
-}
-
-func rings(r *rand.Rand, ctr s2.Point, rad float64, depth, maxN int) ([][]s2.Point, []*ref.LoopModel) {
-	var ls [][]s2.Point
-	var ms []*ref.LoopModel
-	for d := 0; d < depth; d++ {
-		n := 3 + r.Intn(12)
-		if r.Intn(3) == 0 {
-			n = 12 + r.Intn(maxN)
-		}
-		sp := gen.StarLoop(r, ctr, n, rad*0.8, rad)
-		ls = append(ls, sp.Vs)
-		ms = append(ms, ref.NewLoopModel(gen.Vs(sp.Vs), origin, refDir))
-		rad = sp.RMin * 0.8
-		if rad < 1e-9 {
-			break
-		}
-	}
-	return ls, ms
-}
-
-func walk(r *rand.Rand, start s2.Point, n int, step float64) []s2.Point {
-	vs := []s2.Point{start}
-	for len(vs) < n {
-		nx := gen.Near(r, vs[len(vs)-1], step*(0.2+r.Float64()))
-		if r.Intn(15) == 0 && len(vs) > 1 {
-			nx = vs[len(vs)-1] // degenerate edge
-		}
-		vs = append(vs, nx)
-	}
-	return vs
-}
-
-func makeObj(r *rand.Rand, ctr s2.Point, scale float64, maxE int) *obj {
-	o := &obj{}
-	switch k := r.Intn(9); k {
-	case 0, 1, 2, 3, 4: // areal shapes from rings
-		depth := 1 + r.Intn(3)
-		maxN := 20
-		if r.Intn(4) == 0 {
-			maxN = maxE / 4
-		}
-		ls, ms := rings(r, ctr, scale, depth, maxN)
-		o.rings, o.dim = ms, 2
-		for _, l := range ls {
-			o.vertices = append(o.vertices, l...)
-		}
-		mkPoly := func() *s2.Polygon {
-			var x []*s2.Loop
-			for _, j := range r.Perm(len(ls)) {
-				x = append(x, s2.LoopFromPoints(append([]s2.Point(nil), ls[j]...)))
-			}
-			return s2.PolygonFromLoops(x)
-		}
-		switch {
-		case k == 0 && len(ls) == 1:
-			o.shape, o.kind = s2.LoopFromPoints(append([]s2.Point(nil), ls[0]...)), "Loop"
-		case k == 1 && len(ls) == 1:
-			o.shape, o.kind = s2.LaxLoopFromPoints(append([]s2.Point(nil), ls[0]...)), "LaxLoop"
-		case k <= 2:
-			o.shape, o.kind = mkPoly(), "Polygon"
-		default:
-			o.shape, o.kind = s2.LaxPolygonFromPolygon(mkPoly()), "LaxPolygon"
-		}
-	case 5, 6:
-		n := 2 + r.Intn(20)
-		if r.Intn(4) == 0 {
-			n = 2 + r.Intn(maxE/4)
-		}
-		vs := walk(r, gen.Near(r, ctr, scale*r.Float64()), n, scale/4)
-		o.vertices, o.dim = vs, 1
-		if k == 5 {
-			pl := s2.Polyline(append([]s2.Point(nil), vs...))
-			o.shape, o.kind = &pl, "Polyline"
-		} else {
-			o.shape, o.kind = s2.LaxPolylineFromPoints(append([]s2.Point(nil), vs...)), "LaxPolyline"
-		}
-	case 7:
-		n := 1 + r.Intn(10)
-		var vs []s2.Point
-		for i := 0; i < n; i++ {
-			vs = append(vs, gen.Near(r, ctr, scale*r.Float64()))
-		}
-		pv := s2.PointVector(append([]s2.Point(nil), vs...))
-		o.shape, o.kind, o.vertices, o.dim = &pv, "PointVector", vs, 0
-	default: // a long polyline across cube faces
-		a := gen.Near(r, ctr, scale)
-		vs := []s2.Point{a, gen.Uniform(r), gen.Uniform(r)}
-		o.vertices, o.dim = vs, 1
-		o.shape, o.kind = s2.LaxPolylineFromPoints(append([]s2.Point(nil), vs...)), "LaxPolyline(long)"
-	}
-	return o
-}
-
 // contract: chains tile [0,NumEdges), ChainEdge == Edge, ChainPosition inverts.
-func contract(c *mon.Case, o *obj) {
-	s := o.shape
+func contract(c *mon.Case, o *gen.Obj) {
+	s := o.Shape
 	ne := s.NumEdges()
 	det := func(extra string) any {
-		return map[string]any{"type": o.kind, "num_edges": ne, "num_chains": s.NumChains(), "what": extra}
+		return map[string]any{"type": o.Kind, "num_edges": ne, "num_chains": s.NumChains(), "what": extra}
 	}
-	c.Count("contract.shapes", 1)
+	c.Count("contract.Shapes", 1)
 	next := 0
 	for ci := 0; ci < s.NumChains(); ci++ {
 		ch := s.Chain(ci)
 		if ch.Start != next || ch.Length < 0 {
-			c.Violation("Shape/"+o.kind+"/chains-do-not-tile/wrong-answer", fmt.Sprintf("chain %d starts at %d (expected %d), length %d", ci, ch.Start, next, ch.Length), det("Chain"))
+			c.Violation("Shape/"+o.Kind+"/chains-do-not-tile/wrong-answer", fmt.Sprintf("chain %d starts at %d (expected %d), length %d", ci, ch.Start, next, ch.Length), det("Chain"))
 			return
 		}
 		for off := 0; off < ch.Length; off++ {
@@ -190,31 +53,31 @@ func contract(c *mon.Case, o *obj) {
 			func() {
 				defer func() {
 					if r := recover(); r != nil {
-						c.Violation("Shape/"+o.kind+"/ChainEdge/panic", fmt.Sprintf("ChainEdge(%d,%d) panics: %v", ci, off, r), det("ChainEdge"))
+						c.Violation("Shape/"+o.Kind+"/ChainEdge/panic", fmt.Sprintf("ChainEdge(%d,%d) panics: %v", ci, off, r), det("ChainEdge"))
 					}
 				}()
 				if ce := s.ChainEdge(ci, off); ce != e {
-					c.Violation("Shape/"+o.kind+"/ChainEdge-differs-from-Edge/wrong-answer", fmt.Sprintf("ChainEdge(%d,%d) != Edge(%d)", ci, off, ch.Start+off), det("ChainEdge"))
+					c.Violation("Shape/"+o.Kind+"/ChainEdge-differs-from-Edge/wrong-answer", fmt.Sprintf("ChainEdge(%d,%d) != Edge(%d)", ci, off, ch.Start+off), det("ChainEdge"))
 				}
 			}()
 			func() {
 				defer func() {
 					if r := recover(); r != nil {
-						c.Violation("Shape/"+o.kind+"/ChainPosition/panic", fmt.Sprintf("ChainPosition(%d) panics: %v", ch.Start+off, r), det("ChainPosition"))
+						c.Violation("Shape/"+o.Kind+"/ChainPosition/panic", fmt.Sprintf("ChainPosition(%d) panics: %v", ch.Start+off, r), det("ChainPosition"))
 					}
 				}()
 				if cp := s.ChainPosition(ch.Start + off); cp.ChainID != ci || cp.Offset != off {
-					c.Violation("Shape/"+o.kind+"/ChainPosition-not-inverse/wrong-answer", fmt.Sprintf("ChainPosition(%d) = (%d,%d), expected (%d,%d)", ch.Start+off, cp.ChainID, cp.Offset, ci, off), det("ChainPosition"))
+					c.Violation("Shape/"+o.Kind+"/ChainPosition-not-inverse/wrong-answer", fmt.Sprintf("ChainPosition(%d) = (%d,%d), expected (%d,%d)", ch.Start+off, cp.ChainID, cp.Offset, ci, off), det("ChainPosition"))
 				}
 			}()
 		}
 		next += ch.Length
 	}
 	if next != ne {
-		c.Violation("Shape/"+o.kind+"/chains-do-not-tile/wrong-answer", fmt.Sprintf("chains cover %d edges, NumEdges is %d", next, ne), det("Chain"))
+		c.Violation("Shape/"+o.Kind+"/chains-do-not-tile/wrong-answer", fmt.Sprintf("chains cover %d edges, NumEdges is %d", next, ne), det("Chain"))
 	}
-	if s.Dimension() != o.dim {
-		c.Violation("Shape/"+o.kind+"/Dimension/wrong-answer", "unexpected dimension", det("Dimension"))
+	if s.Dimension() != o.Dim {
+		c.Violation("Shape/"+o.Kind+"/Dimension/wrong-answer", "unexpected dimension", det("Dimension"))
 	}
 }
 
@@ -237,7 +100,7 @@ func collection(c *mon.Case, maxE int) {
 		scale = 0.01 + r.Float64()
 	}
 	nObj := 1 + r.Intn(8)
-	var objs []*obj
+	var objs []*gen.Obj
 	idx := s2.NewShapeIndex()
 	total := 0
 	for i := 0; i < nObj && total < maxE; i++ {
@@ -245,15 +108,15 @@ func collection(c *mon.Case, maxE int) {
 		if r.Intn(2) == 0 {
 			at = gen.Near(r, ctr, scale*2*r.Float64())
 		}
-		o := makeObj(r, at, scale*(0.2+r.Float64()), maxE)
+		o := gen.MakeObj(r, at, scale*(0.2+r.Float64()), maxE)
 		objs = append(objs, o)
-		idx.Add(o.shape)
-		total += o.shape.NumEdges()
+		idx.Add(o.Shape)
+		total += o.Shape.NumEdges()
 		contract(c, o)
 	}
 	kinds := ""
 	for _, o := range objs {
-		kinds += o.kind + " "
+		kinds += o.Kind + " "
 	}
 	if c.I < 3 {
 		c.Sample(map[string]any{"shapes": kinds, "edges": total, "center": gen.Hex(ctr), "scale": scale})
@@ -285,8 +148,8 @@ func collection(c *mon.Case, maxE int) {
 					break
 				}
 			}
-			if int(cl.ShapeID) < len(objs) && objs[cl.ShapeID].dim == 2 {
-				if w := objs[cl.ShapeID].containsInterior(id.Point()); w != cl.ContainsCenter {
+			if int(cl.ShapeID) < len(objs) && objs[cl.ShapeID].Dim == 2 {
+				if w := objs[cl.ShapeID].ContainsInterior(id.Point()); w != cl.ContainsCenter {
 					d := baseDet()
 					d["cell"], d["shape_id"] = id.ToToken(), cl.ShapeID
 					c.Violation("ShapeIndex/containsCenter/wrong-answer", fmt.Sprintf("cell %s shape %d containsCenter=%v, ring parity of the centre says %v", id.ToToken(), cl.ShapeID, cl.ContainsCenter, w), d)
@@ -298,13 +161,13 @@ func collection(c *mon.Case, maxE int) {
 	}
 	// every point of every edge lies in an index cell that lists the edge
 	for si, o := range objs {
-		ne := o.shape.NumEdges()
+		ne := o.Shape.NumEdges()
 		stepE := 1
 		if ne > 200 {
 			stepE = ne / 200
 		}
 		for e := 0; e < ne; e += stepE {
-			ed := o.shape.Edge(e)
+			ed := o.Shape.Edge(e)
 			for k := 0; k < 5; k++ {
 				var p s2.Point
 				switch k {
@@ -336,7 +199,7 @@ func collection(c *mon.Case, maxE int) {
 					if ok {
 						d["cell"] = id.ToToken()
 					}
-					c.Violation("ShapeIndex/structure/edge-point-not-covered/wrong-answer", fmt.Sprintf("a point of edge %d of shape %d (%s) lies in no index cell listing that edge (index cell found: %v)", e, si, o.kind, ok), d)
+					c.Violation("ShapeIndex/structure/edge-point-not-covered/wrong-answer", fmt.Sprintf("a point of edge %d of shape %d (%s) lies in no index cell listing that edge (index cell found: %v)", e, si, o.Kind, ok), d)
 				}
 			}
 		}
@@ -345,11 +208,11 @@ func collection(c *mon.Case, maxE int) {
 	// ---- query points ----
 	var ps []s2.Point
 	for _, o := range objs {
-		for k := 0; k < 6 && len(o.vertices) > 0; k++ {
-			ps = append(ps, o.vertices[r.Intn(len(o.vertices))])
+		for k := 0; k < 6 && len(o.Vertices) > 0; k++ {
+			ps = append(ps, o.Vertices[r.Intn(len(o.Vertices))])
 		}
-		if len(o.vertices) >= 2 {
-			ps = append(ps, gen.BoundaryProbes(r, o.vertices, 6)...)
+		if len(o.Vertices) >= 2 {
+			ps = append(ps, gen.BoundaryProbes(r, o.Vertices, 6)...)
 		}
 	}
 	for k := 0; k < 8 && len(cells) > 0; k++ {
@@ -406,15 +269,15 @@ func collection(c *mon.Case, maxE int) {
 			any := false
 			var wantSet []int
 			for si, o := range objs {
-				w := o.contains(p, vm)
+				w := o.Contains(p, vm)
 				if w {
 					any = true
 					wantSet = append(wantSet, si)
 				}
-				if got := q.ShapeContains(o.shape, p); got != w {
+				if got := q.ShapeContains(o.Shape, p); got != w {
 					d := baseDet()
-					d["probe"], d["shape_id"], d["shape_type"], d["model"] = gen.Hex(p), si, o.kind, name
-					c.Violation("ContainsPointQuery/ShapeContains/"+name+"/wrong-answer", fmt.Sprintf("ShapeContains(%s #%d)=%v, brute force over all edges says %v (probe is vertex: %v)", o.kind, si, got, w, o.isVertex(p)), d)
+					d["probe"], d["shape_id"], d["shape_type"], d["model"] = gen.Hex(p), si, o.Kind, name
+					c.Violation("ContainsPointQuery/ShapeContains/"+name+"/wrong-answer", fmt.Sprintf("ShapeContains(%s #%d)=%v, brute force over all edges says %v (probe is vertex: %v)", o.Kind, si, got, w, o.IsVertex(p)), d)
 				}
 			}
 			if got := q.Contains(p); got != any {
@@ -425,7 +288,7 @@ func collection(c *mon.Case, maxE int) {
 			var gotSet []int
 			for _, sh := range q.ContainingShapes(p) {
 				for si, o := range objs {
-					if o.shape == sh {
+					if o.Shape == sh {
 						gotSet = append(gotSet, si)
 					}
 				}
@@ -443,7 +306,7 @@ func collection(c *mon.Case, maxE int) {
 	ceq := s2.NewCrossingEdgeQuery(idx)
 	var allV []s2.Point
 	for _, o := range objs {
-		allV = append(allV, o.vertices...)
+		allV = append(allV, o.Vertices...)
 	}
 	nq := 12
 	for k := 0; k < nq && len(allV) > 0; k++ {
@@ -479,8 +342,8 @@ func collection(c *mon.Case, maxE int) {
 			tname := map[s2.CrossingType]string{s2.CrossingTypeInterior: "Interior", s2.CrossingTypeAll: "All"}[ct]
 			want := map[int][]int{}
 			for si, o := range objs {
-				for e := 0; e < o.shape.NumEdges(); e++ {
-					ed := o.shape.Edge(e)
+				for e := 0; e < o.Shape.NumEdges(); e++ {
+					ed := o.Shape.Edge(e)
 					sg := ref.CrossingSign(gen.V(a), gen.V(b), gen.V(ed.V0), gen.V(ed.V1))
 					if sg == ref.Cross || (ct == s2.CrossingTypeAll && sg == ref.MaybeCross) {
 						want[si] = append(want[si], e)
@@ -495,7 +358,7 @@ func collection(c *mon.Case, maxE int) {
 			got := map[int][]int{}
 			for sh, es := range em {
 				for si, o := range objs {
-					if o.shape == sh {
+					if o.Shape == sh {
 						got[si] = append([]int(nil), es...)
 					}
 				}
@@ -506,7 +369,7 @@ func collection(c *mon.Case, maxE int) {
 				c.Violation("CrossingEdgeQuery/CrossingsEdgeMap/"+tname+"/wrong-answer", fmt.Sprintf("CrossingsEdgeMap=%v, scan over all edges says %v", got, want), d)
 			}
 			si := r.Intn(len(objs))
-			g1 := ceq.Crossings(a, b, objs[si].shape, ct)
+			g1 := ceq.Crossings(a, b, objs[si].Shape, ct)
 			if fmt.Sprint(append([]int{}, g1...)) != fmt.Sprint(append([]int{}, want[si]...)) {
 				d := baseDet()
 				d["a"], d["b"], d["type"], d["shape_id"], d["got"], d["want"] = gen.Hex(a), gen.Hex(b), tname, si, fmt.Sprint(g1), fmt.Sprint(want[si])
@@ -519,7 +382,7 @@ func collection(c *mon.Case, maxE int) {
 	for k := 0; k < 10 && k < len(ps); k++ {
 		p := ps[r.Intn(len(ps))]
 		for si, o := range objs {
-			if got, w := q2.ShapeContains(o.shape, p), o.contains(p, s2.VertexModelSemiOpen); got != w {
+			if got, w := q2.ShapeContains(o.Shape, p), o.Contains(p, s2.VertexModelSemiOpen); got != w {
 				d := baseDet()
 				d["probe"], d["shape_id"] = gen.Hex(p), si
 				c.Violation("ContainsPointQuery/after-crossing-queries/wrong-answer", "containment answer changed after crossing queries ran on the same index", d)
